@@ -319,18 +319,26 @@ def sites(tree):
     return out
 
 
-def make_variant(src, kind, fname, lineno):
+def make_variant(src, kind, fname, lineno, extra=()):
+    """the source with the named rewrite applied (plus, for combined variants, the rewrites listed in ``extra`` - sites
+    of other functions of the same file, applied on the same tree)"""
     tree = ast.parse(src)
-    for k, f, ln, thunk in sites(tree):
-        if (k, f, ln) == (kind, fname, lineno):
+    found = sites(tree)
+    wanted = [(kind, fname, lineno)] + [tuple(x) for x in extra]
+    done = 0
+    for k, f, ln, thunk in found:
+        if (k, f, ln) in wanted:
             thunk()
-            ast.fix_missing_locations(tree)
-            return ast.unparse(tree) + "\n"
-    return None
+            wanted.remove((k, f, ln))
+            done += 1
+    if wanted and (kind, fname, lineno) in wanted:
+        return None
+    ast.fix_missing_locations(tree)
+    return ast.unparse(tree) + "\n"
 
 
 def run_variant(v, repo, scratch, props, keep_bad):
-    vid = "%s.%s.%s.%d" % (v["file"][:-3], v["kind"], v["function"], v["line"])
+    vid = "%s.%s.%s.%d%s" % (v["file"][:-3], v["kind"], v["function"], v["line"], "+%d" % len(v["extra"]) if v.get("extra") else "")
     wt = os.path.join(scratch, vid)
     shutil.rmtree(wt, ignore_errors=True)
     os.makedirs(wt)
@@ -338,7 +346,7 @@ def run_variant(v, repo, scratch, props, keep_bad):
         shutil.copytree(os.path.join(repo, "audiolazy"), os.path.join(wt, "audiolazy"),
                         ignore=shutil.ignore_patterns("__pycache__", "*.pyc"))
         path = os.path.join(wt, "audiolazy", v["file"])
-        new = make_variant(open(path).read(), v["kind"], v["function"], v["line"])
+        new = make_variant(open(path).read(), v["kind"], v["function"], v["line"], v.get("extra", ()))
         if new is None:
             return dict(v, id=vid, outcome="skipped")
         open(path, "w").write(new)
@@ -373,6 +381,7 @@ def main():
     ap.add_argument("--props", nargs="*")
     ap.add_argument("--out")
     ap.add_argument("--keep-bad")
+    ap.add_argument("--combo", type=int, default=1, help="rewrites per variant (the others in other functions of the file)")
     a = ap.parse_args()
     import tempfile
     base_ = os.environ.get("VERIF_SCRATCH", "/var/tmp")
@@ -399,6 +408,19 @@ def main():
                 uniq.append(it_)
         rnd.shuffle(uniq)
         chosen.extend(uniq[:a.per_kind])
+    if a.combo > 1:
+        flat = [it_ for items in pool.values() for it_ in items]
+        for v in chosen:
+            others = [o for o in flat if o["file"] == v["file"] and o["function"] != v["function"]]
+            rnd.shuffle(others)
+            extra, used = [], {v["function"]}
+            for o in others:
+                if o["function"] not in used:
+                    extra.append((o["kind"], o["function"], o["line"]))
+                    used.add(o["function"])
+                if len(extra) >= a.combo - 1:
+                    break
+            v["extra"] = extra
     props = a.props or ["C%02d" % i for i in range(1, 21)]
     print("sites per kind:", {k: len(v) for k, v in sorted(pool.items())}, "-> %d variants" % len(chosen))
     with ThreadPoolExecutor(a.jobs) as ex:
